@@ -17,6 +17,7 @@ META = {
                     'HMAC-MD5/RC4 are not evaluated: "only the honest reply passes" rests on C16'],
     'trusted_base': ['rustc nightly MIR construction', 'mirfacts exporter', 'rules/c01.py, sym.py, facts.py'],
 }
+META['explanation'] += ' Shared rules: the whole received signature is bound (R01.8 = R16.1) and the session key reaches the server only wrapped under the key-exchange key (R01.9 = R15.4).'
 
 CSSP = 'nla::cssp::cssp_connect'
 LINK_WRITE = 'model::link::Link::<S>::write'
